@@ -617,7 +617,8 @@ func (p *process) SendPID(to gen.PID, message any) error {
 	if options.ImportantDelivery {
 		ref := p.node.MakeRef()
 		options.Ref = ref
-		options.Ref.ID[0] = ref.ID[0] + ref.ID[1] + ref.ID[2]
+		// one word on the wire: the node counter itself (the sum of the words is not unique)
+		options.Ref.ID[0] = ref.ID[0] | ref.ID[1]<<18
 		options.Ref.ID[1] = 0
 		options.Ref.ID[2] = 0
 	}
@@ -663,7 +664,8 @@ func (p *process) SendProcessID(to gen.ProcessID, message any) error {
 	if options.ImportantDelivery {
 		ref := p.node.MakeRef()
 		options.Ref = ref
-		options.Ref.ID[0] = ref.ID[0] + ref.ID[1] + ref.ID[2]
+		// one word on the wire: the node counter itself (the sum of the words is not unique)
+		options.Ref.ID[0] = ref.ID[0] | ref.ID[1]<<18
 		options.Ref.ID[1] = 0
 		options.Ref.ID[2] = 0
 	}
@@ -709,7 +711,8 @@ func (p *process) SendAlias(to gen.Alias, message any) error {
 	if options.ImportantDelivery {
 		ref := p.node.MakeRef()
 		options.Ref = ref
-		options.Ref.ID[0] = ref.ID[0] + ref.ID[1] + ref.ID[2]
+		// one word on the wire: the node counter itself (the sum of the words is not unique)
+		options.Ref.ID[0] = ref.ID[0] | ref.ID[1]<<18
 		options.Ref.ID[1] = 0
 		options.Ref.ID[2] = 0
 	}
